@@ -93,3 +93,104 @@ def detach(filebytes):
     p = zckref.parse(filebytes)
     dl = p.chunks[0].clen if p.chunks else 0
     return zckref.MAGIC_HDR + filebytes[5:p.header_len + dl]
+
+
+# ---- value-dependent shapes: digests that contain a 0x00 byte (a comparison with str* functions stops there) -------------
+_zc = {}
+
+
+def zero_hdr_file(cfg, seed, word="ab", pos=0, detached=False):
+    """reference-written file of cfg (one chunk per letter plus a counter chunk) whose stored HEADER digest has 0x00 at
+    byte `pos`; found by counting (about 256 tries)"""
+    key = ("h", cfg.name(), seed, word, pos, detached)
+    if key not in _zc:
+        pcs = word_pieces(word, seed)
+        for n in range(200000):
+            f, h, body = zckref.build_file(pcs + [b"ctr%07d" % n], comp=cfg.comp, htype=cfg.fhash, ctype=cfg.chash, flags=cfg.flags(),
+                                           dict_=cfg.dict, level=(cfg.level if cfg.level >= 0 else 9), detached=detached)
+            p = zckref.parse(f)
+            if p.hdigest[pos] == 0 and (pos == 0 or 0 not in p.hdigest[:pos]):
+                _zc[key] = f
+                break
+        else:
+            raise core.HarnessError("no header digest with a zero byte found")
+    return _zc[key]
+
+
+def zero_twins(ctype, comp, seed, dict_=b"", level=9, size=24, udigest=False):
+    """(P, Q, sP, sQ): two different pieces of `size` bytes whose stored forms sP, sQ have equal length and whose digests
+    (type ctype; of the stored bytes, or of the pieces themselves with udigest) both begin with 0x00 and differ"""
+    key = ("t", ctype, comp, seed, dict_, level, size, udigest)
+    if key not in _zc:
+        by_len = {}
+        for n in range(400000):
+            pc = (b"twin%02d-%09d-" % (seed % 100, n)).ljust(size, b"t")[:size]
+            st = pc if comp == 0 else zckref.zstd_compress(pc, level, dict_ or None)
+            d = zckref.digest(ctype, pc if udigest else st)
+            if d[0] != 0:
+                continue
+            k = len(st)
+            if k in by_len and by_len[k][0] != pc:
+                p0, s0 = by_len[k]
+                _zc[key] = (p0, pc, s0, st)
+                break
+            by_len[k] = (pc, st)
+        else:
+            raise core.HarnessError("no digest twins found")
+    return _zc[key]
+
+
+def twin_file(cfg, seed, word="ab", at=1):
+    """(good file, mutant file, content, chunk index, limit): reference-written file whose data chunk `at`+1 is the twin P
+    of zero_twins(); the mutant has P's stored bytes replaced by Q's (same stored and uncompressed length, the digest of Q's
+    stored bytes begins with the same 0x00 as P's and differs afterwards).  Only the chunk digest can tell them apart."""
+    P, Q, sP, sQ = zero_twins(cfg.chash, cfg.comp, seed, cfg.dict, (cfg.level if cfg.level >= 0 else 9))
+    pcs = word_pieces(word, seed)
+    pcs = pcs[:at] + [P] + pcs[at:]
+    f, h, body = zckref.build_file(pcs, comp=cfg.comp, htype=cfg.fhash, ctype=cfg.chash, flags=cfg.flags(), dict_=cfg.dict,
+                                   level=(cfg.level if cfg.level >= 0 else 9))
+    p = zckref.parse(f)
+    ci = at + 1
+    off, ln = zckref.extents(p)[ci]
+    assert f[off:off + ln] == sP and len(sQ) == ln
+    m = f[:off] + sQ + f[off + ln:]
+    return f, m, b"".join(pcs), ci, sum(len(x) for x in pcs[:at]), Q
+
+
+def zero_data_file(cfg, seed, word="ab"):
+    """reference-written file (one chunk per letter plus a counter chunk) whose whole-DATA digest begins with 0x00"""
+    key = ("d", cfg.name(), seed, word)
+    if key not in _zc:
+        pcs = word_pieces(word, seed)
+        for n in range(200000):
+            f, h, body = zckref.build_file(pcs + [b"dctr%07d" % n], comp=cfg.comp, htype=cfg.fhash, ctype=cfg.chash, flags=cfg.flags(),
+                                           dict_=cfg.dict, level=(cfg.level if cfg.level >= 0 else 9))
+            if h.data_digest[0] == 0 and not (cfg.flags() & 4):
+                _zc[key] = f
+                break
+        else:
+            raise core.HarnessError("no data digest with a leading zero byte found")
+    return _zc[key]
+
+
+def zero_swap_file(cfg, seed):
+    """(good file, mutant, good content): three data chunks a, b, counter.  The mutant has a and b swapped in body AND index
+    (every chunk verifies) but keeps the good file's data digest; both the stale and the actual data digest begin with 0x00.
+    Only a full comparison of the data digest rejects it."""
+    key = ("s", cfg.name(), seed)
+    if key not in _zc:
+        a, b = word_pieces("ab", seed)
+        for n in range(3000000):
+            pcs = [a, b, b"sctr%08d" % n]
+            f, h, body = zckref.build_file(pcs, comp=cfg.comp, htype=cfg.fhash, ctype=cfg.chash, flags=cfg.flags(), dict_=cfg.dict)
+            if h.data_digest[0] != 0:
+                continue
+            f2, h2, body2 = zckref.build_file([b, a, pcs[2]], comp=cfg.comp, htype=cfg.fhash, ctype=cfg.chash, flags=cfg.flags(), dict_=cfg.dict)
+            if h2.data_digest[0] != 0:
+                continue
+            h2.data_digest = h.data_digest
+            _zc[key] = (f, h2.build() + body2, b"".join(pcs))
+            break
+        else:
+            raise core.HarnessError("no pair of data digests with a leading zero byte found")
+    return _zc[key]
